@@ -329,6 +329,32 @@ def run(ctx):
         cls = f.params[0]["t"]["s"].replace("const ", "").replace(" &", "")
         okk = all((cls + "::" + g) in cn for g in ("getType", "getLength", "getRawPayload"))
         res.check(okk, "C14-R3", "operator==(%s):coverage" % cls, f.loc, "type, length and bytes compared", "operator==(%s) does not read type, length and bytes" % cls)
+        # ... read faithfully: the three getters the comparison goes through hand out the member itself on every path (a getType() that folds
+        # several stored types into one makes payloads equal that differ in what their other accessors report)
+        for g, want in (("getType", "member"), ("getLength", "size"), ("getRawPayload", "data")):
+            gf = [h for h in fb.fns(cls + "::" + g) if not h.params and h.body]
+            if len(gf) != 1:
+                raise Broken("%s::%s not found" % (cls, g))
+            gf = gf[0]
+            faithful = bool(gf.returns())
+            for r in gf.returns():
+                v = r.get("e")
+                for _ in range(4):
+                    v = strip_all_casts(v) if isinstance(v, dict) else {}
+                    if v.get("k") == "construct" and len(v.get("args", [])) == 1:
+                        v = v["args"][0]
+                    else:
+                        break
+                v = strip_all_casts(facts.expand(gf, v)) if isinstance(v, dict) and v else {}
+                if want == "member":
+                    ok1 = v.get("k") == "member" and v.get("dk") == "field" and strip_all_casts(v.get("base", {})).get("k") in ("this", "un") and \
+                        "PayloadType" in ((v.get("t") or {}).get("s") or "")
+                else:
+                    ok1 = v.get("k") == "call" and (v.get("callee") or {}).get("nm") == want and fb.is_payload_buffer(v.get("obj", {}))
+                faithful = faithful and ok1
+            res.check(faithful, "C14-R3", "operator==(%s):%s-faithful" % (cls, g), gf.loc, "%s() hands out the stored %s on every path" % (g, want),
+                      "%s::%s() does not simply hand out the stored value: equality, which compares through it, then calls payloads equal whose stored "
+                      "values differ (while other accessors still tell them apart)" % (cls, g))
 
     # ---- R4 reflexivity
     scope4 = {PKT, PAY, TPAY, "ASAM::CMP::PayloadType", "TECMP::PayloadType"} | set(fb.derived_from(PAY)) | set(fb.derived_from(TPAY))
